@@ -111,9 +111,17 @@ var ctorRecPtrFirst = ctor{"recp", func(g *shapeGen, in shape) shape {
 		fmt.Sprintf("type PFXQS%d struct {\n\tNext *PFXQS%d\n\tV %s\n}\ntype PFXQT%d struct {\n\tNext *PFXQT%d\n\tV %s\n}", k, k, in.Src, k, k, in.Tgt))
 }}
 
+// unnamed struct with two converted fields (converted inline by the enclosing method)
+var ctorAnonTwo = ctor{"anon2f", func(g *shapeGen, in shape) shape {
+	return wrap(in, "anon2f", fmt.Sprintf("struct{ F %s; G %s; H string }", in.Src, in.Src), fmt.Sprintf("struct{ F %s; G %s; H string }", in.Tgt, in.Tgt))
+}}
+
 func ctorByName(n string) ctor {
 	if n == "recp" {
 		return ctorRecPtrFirst
+	}
+	if n == "anon2f" {
+		return ctorAnonTwo
 	}
 	for _, c := range ctors {
 		if c.Name == n {
